@@ -10,6 +10,10 @@ NOT_APPLICABLE = {
 
 # id -> (engine, level category, level text, level note, technique, design_ref)
 CHECKS = {
+    "C10": ("StepExec", "exploration",
+            "Seeded seam-to-seam schedules of 2-5 concurrent writers over the real SqliteStore transaction machinery (Semaphore(1) in begin, commit, rollback, TransactionPermit::drop with its spawned rollback) on a 1-connection in-memory pool and a 4-connection file database; transactions of read-modify-write steps end in commit / rollback / dropped permit or are cancelled at a store-call boundary or while parked in begin(); the committed state read through the pool must equal the fold of the committed transactions in commit order (shared log gap-free, one entry per committed append), aborted transactions leave no trace, and every surviving writer's begin() completes.",
+            "TxModel mirrors tokio's FIFO semaphore to classify a Pending begin() exactly (parked vs. waiting for SQLite). Dropping a writer while a pool-level command is in flight (sqlx discards the connection) is outside this check.",
+            "deterministic simulation with fault injection: concurrent writers, aborts and cancellations against a serial-fold model", "§4 C10"),
     "C13": ("DES", "exploration",
             "Discrete-event simulation of the real ProcessorStream / Buffer / ComposedProcessors / Pipeline layers over cancel-safe FIFO stub stages with seeded latencies and drop guards: 1-20 inputs with seeded arrival gaps, 1-3 stages stacked or composed, seeded consumer polling and task schedule; every input must yield exactly one output (Ok through all stages, or its error), Ok outputs in input order, all within 60 simulated seconds after the stream goes quiet.",
             "Processors are stubs so that every loss is attributable to the layers (the real Ingest / LogPrune / Orderer processors are exercised by C01-C05, C11, C12). Errors may overtake earlier Ok items (not constrained by the property).",
